@@ -11,6 +11,7 @@ func init() {
 	vHarnesses["H_C14_bool"] = H_C14_bool
 	vHarnesses["H_C14_boundary"] = H_C14_boundary
 	vHarnesses["H_C14_skiptag"] = H_C14_skiptag
+	vHarnesses["H_C14_seq"] = H_C14_seq
 }
 
 type vCastOpts struct {
@@ -234,4 +235,37 @@ func H_C14_skiptag() {
 	o := vCastOpts{toInt: vNondetBool(), toFloat: true, toBool: true}
 	o.skipTag = []string{"k", "-a", "#text", "r"}[vChoose(4)]
 	vC14(text, o)
+}
+
+// the sequence-preserving decoder casts element text, plain attributes and prefixed
+// attributes alike
+func H_C14_seq() {
+	vResetDecOpts()
+	text := []string{"7", "2.5", "true", "x", "-1", "1e2"}[vChoose(6)]
+	if vChoose(3) == 0 {
+		text = vNondetString(1, 2, "17.et-")
+	}
+	o := vCastOpts{toInt: vNondetBool(), toFloat: vNondetBool(), toBool: vNondetBool()}
+	doc := "<r p:n=\"" + text + "\" a=\"" + text + "\"><k>" + text + "</k><p:q p:m=\"" + text + "\"/></r>"
+	CastValuesToInt(o.toInt)
+	CastValuesToFloat(o.toFloat)
+	CastValuesToBool(o.toBool)
+	CastNanInf(false)
+	SetCheckTagToSkipFunc(nil)
+	mc, errc := NewMapXmlSeq([]byte(doc), true)
+	mp, errp := NewMapXmlSeq([]byte(doc))
+	vResetCastOpts()
+	vAssert(errc == nil && errp == nil, "cast(seq): the document decodes with and without the cast flag")
+	want, ambiguous := refCast(text, o)
+	paths := []string{"r.#attr.p:n.#text", "r.#attr.a.#text", "r.k.#text", "r.p:q.#attr.p:m.#text"}
+	for _, p := range paths {
+		gp, e1 := Map(mp).ValueForPath(p)
+		vAssert(e1 == nil && vSame(gp, text), "cast(seq): without the cast flag every leaf is the identical string")
+		gc, e2 := Map(mc).ValueForPath(p)
+		vAssert(e2 == nil, "cast(seq): casting does not change the structure or keys")
+		if !ambiguous {
+			vAssert(vSameCast(gc, want), "cast(seq): element text, plain attributes and prefixed attributes are each the value their text denotes under the enabled options")
+		}
+	}
+	vCover("seq")
 }
